@@ -13,7 +13,7 @@ PLACE=${PLACE#/tmp/seed-$P/}; PLACE=${PLACE#./}
 mkdir -p "$WT/$PLACE"
 DST="$WT/$PLACE/zz_seed_demo_test.go"; case "$DEMO" in *_test.go) ;; *) DST="$WT/$PLACE/$DEMO";; esac
 cp "$OUT/$DEMO" "$DST"
-CMD=$(echo "$CMD" | sed "s#/tmp/seed-$P#$WT#g")
+CMD=$(echo "$CMD" | sed "s#/tmp/seed-$P#$WT#g" | sed -E 's#^cd [^&;]*(&&|;) *##')
 echo "== demo without patch: $CMD"
 (cd "$WT" && timeout 900 bash -c "$CMD" > /tmp/sv-$SID.a 2>&1); A=$?
 echo "exit=$A"; tail -3 /tmp/sv-$SID.a
